@@ -302,11 +302,12 @@ impl Components {
     ///    a la energía saliente de cada servicio en relación a la total saliente
     ///    para todos los servicios EPB.
     fn assign_aux_nepb_to_epb_services(&mut self) -> Result<()> {
-        // ids with aux energy use
+        // ids with aux energy use that is still to be assigned to EPB services
+        // (auxiliary components are loaded with the NEPB service; those already assigned are left as they are)
         let ids: HashSet<_> = self
             .data
             .iter()
-            .filter(|c| c.is_aux())
+            .filter(|c| matches!(c, Energy::Aux(e) if e.service == Service::NEPB))
             .map(Energy::id)
             .collect();
         for id in ids {
